@@ -48,58 +48,39 @@ def rule_R15_3(ctx):
                    "parsed, on that evaluation, from the slot's own text",
                    "a slot AST taken from anywhere else (a cache, another "
                    "literal) evaluates a different expression")
-    n = 0
-    for f in prog.hand_fns():
-        if f.from_expansion or f.is_closure:
-            continue
-        parses = [c for c in f.calls() if not c.is_ptr and "ExprParser" in (c.res or "")
-                  and (c.res or "").endswith("::parse")]
-        if not parses:
-            continue
-        n += 1
-        graph_evs = [c for c in f.calls() if not c.is_ptr and c.argtys
-                     and any(t == "&((ast::RawExpr, (usize, usize)))" or t == "&(ast::RawExpr, (usize, usize))" for t in c.argtys)
-                     and (c.dstty or "").startswith("std::result::Result<eval::value::SourcedValue")]
-        for c in graph_evs:
+    pv = prov.Prov(prog, foreign="stop", field_based=False, follow_params=False)
+    # the interpolation function: raises InterpolatedValueNotString
+    fs = [f for f in prog.hand_fns() if not f.is_closure and not f.from_expansion
+          and any(True for _ in f.aggregates("eval::error::Error", "InterpolatedValueNotString"))]
+    if not r.require_floor("interpolation function", len(fs), 1):
+        return r
+    for f in fs:
+        evs = [c for c in f.calls() if not c.is_ptr
+               and any("ast::RawExpr" in t and t.startswith("&") for t in c.argtys)
+               and (c.dstty or "").startswith("std::result::Result<eval::value::SourcedValue")]
+        if not evs:
+            r.unproven.append("%s: no expression evaluation found" % f.path)
+        for c in evs:
             ai = [i for i, t in enumerate(c.argtys) if "ast::RawExpr" in t][0]
-            cp = tuple(p for p in f.canon_op(c.args[ai]) if p not in ("&", "*"))
-            src = None
-            if cp and cp[0][0] == "local":
-                ds = f.defs().get(cp[0][1], [])
-                roots = set()
-                for (bb, i, kind, payload) in ds:
-                    if kind == "rv" and payload[0] == "use":
-                        roots.add(f.canon_op(payload[1])[0])
-                    elif kind == "call":
-                        roots.add(("call", payload.bb))
-                src = roots
-            elif cp:
-                src = {cp[0]}
-            ok = bool(src) and all(x[0] == "call" and any(x[1] == p_.bb for p_ in parses) for x in src)
-            r.inst("%s: slot expression evaluated from %s" % (f.path, sorted(src) if src else None))
-            if ok:
+            o = pv.origins(f, c.args[ai], ("*",))
+            srcs = set()
+            for x in o:
+                if x[0] == "call":
+                    srcs.add(x[3])
+                elif x[0] == "param":
+                    srcs.add("parameter %d of %s" % (x[2], x[1]))
+                else:
+                    srcs.add(x[0])
+            parse_only = bool(srcs) and all(("Parser" in s_ and s_.endswith("::parse")) for s_ in srcs)
+            r.inst("%s: slot expression comes from %s" % (f.path, sorted(srcs)))
+            if parse_only:
                 r.ok()
             else:
-                r.fail("%s | slot AST not from this parse" % f.path,
-                       "%s evaluates a slot expression that is not (only) the "
-                       "result of parsing the slot text in this evaluation "
-                       "(sources %s)" % (f.path, sorted(src) if src else None), where=c.loc)
-        # the parser input derives from the literal text parameter
-        for pc in parses:
-            lexers = [c for c in f.calls() if (c.res or "").endswith("Lexer::<'input>::new")]
-            for lc in lexers:
-                import locks
-                srcs = locks.backward_sources(f, lc.args[0], set())
-                args = sorted(x[1] for x in srcs if x[0] == "arg")
-                r.inst("%s: slot text derives from parameters %s" % (f.path, args))
-                if args and all(f.locals[a] in ("&str", "&std::string::String", "&std::vec::Vec<(usize, usize)>", "(&usize, &usize)") or True for a in args):
-                    r.ok()
-    if n == 0:
-        r.anchor_missing("function parsing interpolation slots (ExprParser::parse)")
-    # the slot parser is invoked only there
-    users = sorted(set(f.path for f in prog.hand_fns() for c in f.calls()
-                       if not c.is_ptr and "ExprParser" in (c.res or "") and (c.res or "").endswith("::parse")))
-    r.inst("ExprParser::parse is called from %s" % users)
+                bad = sorted(s_ for s_ in srcs if not ("Parser" in s_ and s_.endswith("::parse")))
+                r.fail("%s | slot AST from %s" % (f.path, ",".join(x.split("::")[-1] for x in bad)[:60]),
+                       "%s evaluates a slot expression that can come from %s "
+                       "rather than from parsing the slot's own text in this "
+                       "evaluation" % (f.path, bad), where=c.loc)
     return r
 
 
